@@ -163,6 +163,12 @@ class JobCtx:
         describing the reproduced violation, or None if it does not reproduce.
         """
         ob = self.obligations.setdefault(label, {"unsat": 0, "sat": 0, "unknown": 0})
+        fkey0 = key or f"{self.prop_id}:{self.job.name}:{label}"
+        if sum(1 for v in self.violations if v["key"] == fkey0) >= 3:
+            # this finding is already established with reproduced witnesses; more paths add nothing
+            ob.setdefault("skipped_after_violation", 0)
+            ob["skipped_after_violation"] += 1
+            return "skipped"
         if isinstance(prop, core.SymBool):
             prop = prop.t
         if isinstance(prop, bool):
